@@ -34,6 +34,7 @@ theorem setup_pure (env : Env) (s : PyState) (hs : Reachable current env s) (cal
       simp only [setupSt, setupPure]
       rw [this]
       cases ownGrid env (ownPtrs (run current env (init env) calls)) a <;> rfl
+  | setTimegridSub a i g => simp [setupSt, setupPure]
   | setupSub a i arg => exact setupSubSt_eq env _ a i arg hI
   | setupPortfolio arg => exact (setupPortfolioSt_eq current env _ arg hI).1
   | setupSplit g tmp =>
